@@ -205,9 +205,7 @@ Proof.
   destruct (run_status (session_ x1) pi) as [[]|];
     try (intros <-; simpl; eapply results_ok_same_runs; [|exact H1]; reflexivity).
   destruct (negb match run_status (session_ x1) c with Some RFailed => true | _ => false end).
-  - destruct (match get_run (session_ x1) pi with
-              | Some r0 => match get_flow a (r_flow r0) with Some _ => false | None => true end
-              | None => true end).
+  - destruct (run_flow_unusable a (session_ x1) pi).
     + intros <-. simpl. apply results_ok_fail_run; auto.
     + pose proof (find_resume_exit_results a x1 pi false [] H1) as K.
       destruct (find_resume_exit a x1 pi false []) as [y e op|y|y|]; try (intros <-; exact I).
